@@ -184,7 +184,11 @@ func (g *c10Gen) operand(depth int) *sx {
 	case 0, 1:
 		return g.ref()
 	case 2:
-		return call("P", g.value())
+		v := g.value()
+		if v.head() == "lit" { // query.Parameter(query.Literal(…)) is the caller's own mistake, not a builder path
+			v = call("i", a("7"))
+		}
+		return call("P", v)
 	case 3:
 		if depth > 0 {
 			n := g.rng.Intn(4)
